@@ -19,12 +19,28 @@ def is_marker(word: str) -> bool:
     return bool(_MARK.match(word) or _NUM.match(word))
 
 
+_ALONE = re.compile(r"^(-{2,}|\*{2,}|_{3,})$|^`{3,}[^`]*$|^~{3,}")
+
+
+def _bs(word: str) -> str:
+    """One backslash in front of the word; a run of * or _ is escaped character by character (after `\\*` the rest could
+    still open or close emphasis)."""
+    if word[0] in "*_":
+        return "".join("\\" + c for c in word)
+    return "\\" + word
+
+
 def protect(word: str) -> str:
     if _NUM.match(word):
         return word[:-1] + "\\" + word[-1]
     if _MARK.match(word):
-        return "\\" + word
+        return _bs(word)
     return word
+
+
+def protect_alone(word: str) -> str:
+    """The first word of a paragraph left alone on its line: a rule or a fence needs protection there."""
+    return _bs(word) if _ALONE.match(word) else word
 
 
 def unprotect(word: str) -> str:
@@ -32,6 +48,8 @@ def unprotect(word: str) -> str:
     m = re.match(r"^([0-9]+)\\([.)])$", word)
     if m:
         return m.group(1) + m.group(2)
+    if re.match(r"^(?:\\[*_])+$", word):
+        return word.replace("\\", "")
     if len(word) >= 2 and word[0] == "\\" and not word[1].isalnum() and not word[1].isspace():
         return word[1:]
     return word
@@ -53,6 +71,8 @@ def greedy(words, width, col0=0, off=0, markdown=False, trace=None):
             col += need
         else:
             if cur:
+                if markdown and first and len(cur) == 1:
+                    cur = [protect_alone(cur[0])]
                 lines.append(cur)
                 first = False
                 start = off
